@@ -11,111 +11,113 @@ theorem token_of_holder (s : St) (inv : CInv s) (j : Nat) (l : Thread) (hj : s.w
   · rfl
 
 theorem step_cinv_meas (s t : St) (h : Step s t) (inv : CInv s) : CInv t ∧ measure t < measure s := by
-  obtain ⟨hl, ha, ho⟩ := inv
+  obtain ⟨hl, ha, ho, hcf⟩ := inv
   unfold measure
   cases h with
   | call i w hi hp =>
     obtain ⟨a1, a2, a3, a4, a5, a6⟩ := tot_set6 s.ws i w (w.setPc .selecting) hi
-    refine ⟨⟨?_, ?_, ?_⟩, ?_⟩ <;>
+    refine ⟨⟨?_, ?_, ?_, hcf⟩, ?_⟩ <;>
       simp [Thread.setPc, hp, holds, isWA, isWM, owed, pendReply, wt] at * <;> omega
   | retClosed i w hi hp hk hc =>
     obtain ⟨a1, a2, a3, a4, a5, a6⟩ := tot_set6 s.ws i w (w.setPc (.returned .closed)) hi
-    refine ⟨⟨?_, ?_, ?_⟩, ?_⟩ <;>
+    refine ⟨⟨?_, ?_, ?_, hcf⟩, ?_⟩ <;>
       simp [Thread.setPc, hp, holds, isWA, isWM, owed, pendReply, wt] at * <;> omega
   | retPerErr i w hi hp hk hc =>
     obtain ⟨a1, a2, a3, a4, a5, a6⟩ := tot_set6 s.ws i w (w.setPc (.returned .perErr)) hi
-    refine ⟨⟨?_, ?_, ?_⟩, ?_⟩ <;>
+    refine ⟨⟨?_, ?_, ?_, hcf⟩, ?_⟩ <;>
       simp [Thread.setPc, hp, holds, isWA, isWM, owed, pendReply, wt] at * <;> omega
-  | lock i w hi hp hk ht =>
+  | lock i w g hi hp hk ht =>
     obtain ⟨a1, a2, a3, a4, a5, a6⟩ := tot_set6 s.ws i w w.asLeader hi
-    refine ⟨⟨?_, ?_, ?_⟩, ?_⟩ <;>
+    refine ⟨⟨?_, ?_, ?_, hcf⟩, ?_⟩ <;>
       simp [Thread.asLeader, hp, ht, holds, isWA, isWM, owed, pendReply, wt] at * <;> omega
   | hAcquire i w hi hp hk ht =>
     obtain ⟨a1, a2, a3, a4, a5, a6⟩ := tot_set6 s.ws i w (w.setPc .hold) hi
-    refine ⟨⟨?_, ?_, ?_⟩, ?_⟩ <;>
+    refine ⟨⟨?_, ?_, ?_, hcf⟩, ?_⟩ <;>
       simp [Thread.setPc, hp, ht, holds, isWA, isWM, owed, pendReply, wt] at * <;> omega
   | hRelease i w hi hp hk =>
-    have htok := token_of_holder s ⟨hl, ha, ho⟩ i w hi (by simp [hp, holds])
+    have htok := token_of_holder s ⟨hl, ha, ho, hcf⟩ i w hi (by simp [hp, holds])
     obtain ⟨a1, a2, a3, a4, a5, a6⟩ := tot_set6 s.ws i w (w.setPc (.returned .ok)) hi
-    refine ⟨⟨?_, ?_, ?_⟩, ?_⟩ <;>
+    refine ⟨⟨?_, ?_, ?_, hcf⟩, ?_⟩ <;>
       simp [Thread.setPc, hp, htok, holds, isWA, isWM, owed, pendReply, wt] at * <;> omega
-  | flushOk j l m o lim hj hp =>
+  | flushOk j l m o free hj hp =>
     obtain ⟨a1, a2, a3, a4, a5, a6⟩ :=
-      tot_set6 s.ws j l { l with pc := .lead .merging 0 false, glimit := lim } hj
-    refine ⟨⟨?_, ?_, ?_⟩, ?_⟩ <;>
+      tot_set6 s.ws j l { l with pc := .lead .merging 0 false, gfree := free,
+                                 glimit := mergeLimitOf l.bsize free, batches := [.own] } hj
+    refine ⟨⟨?_, ?_, ?_, hcf⟩, ?_⟩ <;>
       simp [hp, holds, isWA, isWM, owed, pendReply, wt] at * <;> omega
   | flushFail j l m o hj hp =>
     obtain ⟨a1, a2, a3, a4, a5, a6⟩ := tot_set6 s.ws j l (l.unlock 0 false .err) hj
-    refine ⟨⟨?_, ?_, ?_⟩, ?_⟩ <;>
+    refine ⟨⟨?_, ?_, ?_, hcf⟩, ?_⟩ <;>
       simp [Thread.unlock, hp, holds, isWA, isWM, owed, pendReply, wt] at * <;> omega
-  | recvAccept i j w l m hj hi hp hm hl' hq hk hwm hsz =>
+  | recvAccept i j w l m g hj hi hp hm hl' hq hk hwm hsz =>
     obtain ⟨a1, a2, a3, a4, a5, a6⟩ := tot_set2_6 s.ws i j w l (w.setPc .waitMerged)
-      { l with pc := .lead .replying m false, glimit := l.glimit - w.size,
-               gn := l.gn + w.nrec, gsync := l.gsync || w.sync } hi hj (by simp [hp, hq])
-    refine ⟨⟨?_, ?_, ?_⟩, ?_⟩ <;>
+      ((l.accept s.cfg i w (poolGet s.pool g).1).setPc (.lead .replying m false)) hi hj (by simp [hp, hq])
+    refine ⟨⟨?_, ?_, ?_, hcf⟩, ?_⟩ <;>
       simp [Thread.setPc, hp, hq, holds, isWA, isWM, owed, pendReply, wt] at * <;> omega
   | reply i j w l m o hj hi hp hq =>
     obtain ⟨a1, a2, a3, a4, a5, a6⟩ := tot_set2_6 s.ws i j w l { w with pc := .waitAck, acc := some j }
       (l.setPc (.lead .merging (m + 1) false)) hi hj (by simp [hp, hq])
-    cases o <;> refine ⟨⟨?_, ?_, ?_⟩, ?_⟩ <;>
+    cases o <;> refine ⟨⟨?_, ?_, ?_, hcf⟩, ?_⟩ <;>
       simp [Thread.setPc, hp, hq, holds, isWA, isWM, owed, pendReply, wt] at * <;> omega
   | recvOverflow i j w l m hj hi hp hm hl' hq hk hwm hsz =>
     obtain ⟨a1, a2, a3, a4, a5, a6⟩ := tot_set2_6 s.ws i j w l (w.setPc .waitMerged)
-      { l with pc := .lead .journal m true, gseq := s.seq + 1 } hi hj (by simp [hp, hq])
-    refine ⟨⟨?_, ?_, ?_⟩, ?_⟩ <;>
-      simp [Thread.setPc, hp, hq, holds, isWA, isWM, owed, pendReply, wt] at * <;> omega
+      (l.grouped s.seq m true) hi hj (by simp [hp, hq])
+    refine ⟨⟨?_, ?_, ?_, hcf⟩, ?_⟩ <;>
+      simp [Thread.setPc, Thread.grouped, hp, hq, holds, isWA, isWM, owed, pendReply, wt] at * <;> omega
   | mergeDone j l m o hj hp =>
     obtain ⟨a1, a2, a3, a4, a5, a6⟩ :=
-      tot_set6 s.ws j l { l with pc := .lead .journal m o, gseq := s.seq + 1 } hj
-    cases o <;> refine ⟨⟨?_, ?_, ?_⟩, ?_⟩ <;>
-      simp [hp, holds, isWA, isWM, owed, pendReply, wt] at * <;> omega
+      tot_set6 s.ws j l (l.grouped s.seq m o) hj
+    cases o <;> refine ⟨⟨?_, ?_, ?_, hcf⟩, ?_⟩ <;>
+      simp [Thread.grouped, hp, holds, isWA, isWM, owed, pendReply, wt] at * <;> omega
   | journalOk j l m o hj hp =>
     obtain ⟨a1, a2, a3, a4, a5, a6⟩ :=
-      tot_set6 s.ws j l { l with pc := .lead .apply m o, jout := some true } hj
-    cases o <;> refine ⟨⟨?_, ?_, ?_⟩, ?_⟩ <;>
-      simp [hp, holds, isWA, isWM, owed, pendReply, wt] at * <;> omega
+      tot_set6 s.ws j l ((l.journalled true).setPc (.lead .apply m o)) hj
+    cases o <;> refine ⟨⟨?_, ?_, ?_, hcf⟩, ?_⟩ <;>
+      simp [Thread.setPc, Thread.journalled, hp, holds, isWA, isWM, owed, pendReply, wt] at * <;> omega
   | journalFail j l m o hj hp =>
     obtain ⟨a1, a2, a3, a4, a5, a6⟩ :=
-      tot_set6 s.ws j l { l.unlock m o .err with jout := some false } hj
-    cases o <;> refine ⟨⟨?_, ?_, ?_⟩, ?_⟩ <;>
-      simp [Thread.unlock, hp, holds, isWA, isWM, owed, pendReply, wt] at * <;> omega
+      tot_set6 s.ws j l ((l.journalled false).unlock m o .err) hj
+    cases o <;> refine ⟨⟨?_, ?_, ?_, hcf⟩, ?_⟩ <;>
+      simp [Thread.unlock, Thread.journalled, hp, holds, isWA, isWM, owed, pendReply, wt] at * <;> omega
   | apply j l m o hj hp =>
-    obtain ⟨a1, a2, a3, a4, a5, a6⟩ := tot_set6 s.ws j l (l.setPc (.lead .publish m o)) hj
-    cases o <;> refine ⟨⟨?_, ?_, ?_⟩, ?_⟩ <;>
-      simp [Thread.setPc, hp, holds, isWA, isWM, owed, pendReply, wt] at * <;> omega
-  | publish j l m o rot hj hp =>
+    obtain ⟨a1, a2, a3, a4, a5, a6⟩ :=
+      tot_set6 s.ws j l { l with pc := .lead .publish m o, arecs := l.flat } hj
+    cases o <;> refine ⟨⟨?_, ?_, ?_, hcf⟩, ?_⟩ <;>
+      simp [hp, holds, isWA, isWM, owed, pendReply, wt] at * <;> omega
+  | publish j l m o rot hj hp hrot =>
     cases rot
     · obtain ⟨a1, a2, a3, a4, a5, a6⟩ :=
         tot_set6 s.ws j l { l.unlock m o .ok with pub := some (s.seq + l.gn) } hj
-      cases o <;> refine ⟨⟨?_, ?_, ?_⟩, ?_⟩ <;>
+      cases o <;> refine ⟨⟨?_, ?_, ?_, hcf⟩, ?_⟩ <;>
         simp [Thread.unlock, hp, holds, isWA, isWM, owed, pendReply, wt] at * <;> omega
     · obtain ⟨a1, a2, a3, a4, a5, a6⟩ :=
         tot_set6 s.ws j l { l with pc := .lead .rotate m o, pub := some (s.seq + l.gn) } hj
-      cases o <;> refine ⟨⟨?_, ?_, ?_⟩, ?_⟩ <;>
+      cases o <;> refine ⟨⟨?_, ?_, ?_, hcf⟩, ?_⟩ <;>
         simp [hp, holds, isWA, isWM, owed, pendReply, wt] at * <;> omega
   | rotateOk j l m o hj hp =>
     obtain ⟨a1, a2, a3, a4, a5, a6⟩ := tot_set6 s.ws j l (l.unlock m o .ok) hj
-    cases o <;> refine ⟨⟨?_, ?_, ?_⟩, ?_⟩ <;>
+    cases o <;> refine ⟨⟨?_, ?_, ?_, hcf⟩, ?_⟩ <;>
       simp [Thread.unlock, hp, holds, isWA, isWM, owed, pendReply, wt] at * <;> omega
   | rotateFail j l m o hj hp =>
     obtain ⟨a1, a2, a3, a4, a5, a6⟩ := tot_set6 s.ws j l (l.unlock m o .err) hj
-    cases o <;> refine ⟨⟨?_, ?_, ?_⟩, ?_⟩ <;>
+    cases o <;> refine ⟨⟨?_, ?_, ?_, hcf⟩, ?_⟩ <;>
       simp [Thread.unlock, hp, holds, isWA, isWM, owed, pendReply, wt] at * <;> omega
   | ack i j w l k m o r hj hi hp hq =>
     obtain ⟨a1, a2, a3, a4, a5, a6⟩ := tot_set2_6 s.ws i j w l (w.setPc (.returned r))
       (l.setPc (.lead (.acking k r) m o)) hi hj (by simp [hp, hq])
-    cases o <;> refine ⟨⟨?_, ?_, ?_⟩, ?_⟩ <;>
+    cases o <;> refine ⟨⟨?_, ?_, ?_, hcf⟩, ?_⟩ <;>
       simp [Thread.setPc, hp, hq, holds, isWA, isWM, owed, pendReply, wt] at * <;> omega
-  | handoff i j w l m r hj hi hp hq =>
+  | handoff i j w l m r g hj hi hp hq hc =>
     obtain ⟨a1, a2, a3, a4, a5, a6⟩ := tot_set2_6 s.ws i j w l w.asLeader
       (l.setPc (.returned r)) hi hj (by simp [hp, hq])
-    refine ⟨⟨?_, ?_, ?_⟩, ?_⟩ <;>
+    refine ⟨⟨?_, ?_, ?_, hcf⟩, ?_⟩ <;>
       simp [Thread.setPc, Thread.asLeader, hp, hq, holds, isWA, isWM, owed, pendReply, wt] at * <;> omega
   | release j l m r hj hp =>
-    have htok := token_of_holder s ⟨hl, ha, ho⟩ j l hj (by simp [hp, holds])
+    have htok := token_of_holder s ⟨hl, ha, ho, hcf⟩ j l hj (by simp [hp, holds])
     obtain ⟨a1, a2, a3, a4, a5, a6⟩ := tot_set6 s.ws j l (l.setPc (.returned r)) hj
-    refine ⟨⟨?_, ?_, ?_⟩, ?_⟩ <;>
+    refine ⟨⟨?_, ?_, ?_, hcf⟩, ?_⟩ <;>
       simp [Thread.setPc, hp, htok, holds, isWA, isWM, owed, pendReply, wt] at * <;> omega
+  | releaseLost j l m r hj hp hc hr => rw [hc] at hcf; cases hcf
 
 theorem step_cinv (s t : St) (h : Step s t) (inv : CInv s) : CInv t := (step_cinv_meas s t h inv).1
 
@@ -123,14 +125,14 @@ theorem step_measure (s t : St) (h : Step s t) (inv : CInv s) : measure t < meas
   (step_cinv_meas s t h inv).2
 
 theorem init_cinv (s : St) (h : Init s) : CInv s := by
-  obtain ⟨ht, _, hw⟩ := h
+  obtain ⟨hcf, ht, _, hw⟩ := h
   have hz : ∀ (f : Pc → Nat), f .idle = 0 → tot f s.ws = 0 := by
     intro f hf
     apply tot_eq_zero
     intro i w hi
     have := hw w (List.mem_of_getElem? hi)
     rw [this.1]; exact hf
-  refine ⟨?_, ?_, ?_⟩
+  refine ⟨?_, ?_, ?_, hcf⟩
   · rw [hz holds rfl, ht]; rfl
   · rw [hz isWA rfl, hz owed rfl]
   · rw [hz isWM rfl, hz pendReply rfl]
